@@ -651,6 +651,21 @@ def c04_case(scr, run, fpos, cut, second, ref, cid, stats):
         scr.flush(real, True, cid)
         scr.dumps(real, cid)
         scr.spec_check(real, run.chain, cid, run.outpoints())
+        # direct oracle 3 ("resuming sync reaches the same final state as an uninterrupted run"), for the
+        # part of the final state no query shows: the undo information of the blocks a reorganisation may
+        # still replace (older rows are legitimately pruned by the restart)
+        ref_undo = getattr(run, 'ref_undo', None)
+        if ref_undo is not None:
+            got = {struct.unpack('>I', k[1:])[0]: v for k, v in real.db.utxo_db.iterator(prefix=b'U') if len(k) == 5}
+            tip = len(run.chain) - 1
+            stats('final_undo_rows_compared_with_the_uninterrupted_run')
+            for hgt in sorted(ref_undo):
+                if hgt > tip - run.lim and got.get(hgt) != ref_undo[hgt]:
+                    scr.direct.append((cid, 'resumed run does not reach the final state of the uninterrupted run',
+                                       f'undo information of height {hgt} (tip {tip}, reorg limit {run.lim}): the '
+                                       f'uninterrupted run has it, the resumed run '
+                                       f'{"has a different row" if hgt in got else "has none"}'))
+                    break
         return rec
     finally:
         real.destroy()
@@ -702,6 +717,8 @@ def c04_run(res, run, label, only=None):
             if fu:
                 committed = height
         ref.spec_check(ref_real, run.chain, 'ref', run.outpoints())
+        run.ref_undo = {struct.unpack('>I', k[1:])[0]: v for k, v in ref_real.db.utxo_db.iterator(prefix=b'U')
+                        if len(k) == 5}
     finally:
         ref_real.destroy()
     # phase 2
